@@ -24,6 +24,7 @@ Tr == Traces[tid]
 Compat(m, r) ==
   CASE m.k = "V" -> TRUE
     [] m.k = "N" -> r = "N"
+    [] m.k \in {"KC", "KS", "KT"} -> TRUE
     [] m.k = "W" -> r = "I" \o ToString(m.t)
     [] m.k = "R" -> TRUE
     [] m.k = "ET" -> r = "ET"
@@ -51,17 +52,16 @@ RejectKind(P, ev) ==
 Init == /\ tid \in 1..NT /\ i = 0 /\ fin = FALSE /\ S = {Entry} /\ rk = ""
 \* the first event must be the frame entry
 First == /\ ~fin /\ i = 0 /\ Len(Tr.ev) > 0
-         /\ LET N == { s \in S : Matches(s, Tr.ev[1]) }
-            IN S' = N /\ rk' = IF N = {} THEN "entry" ELSE ""
+         /\ S' = { s \in S : Matches(s, Tr.ev[1]) }
+         /\ rk' = IF S' = {} THEN "entry" ELSE ""
          /\ i' = 1 /\ UNCHANGED <<tid, fin>>
 Step == /\ ~fin /\ i >= 1 /\ i < Len(Tr.ev) /\ S # {}
-        /\ LET P == AllSucc
-               N == { r \in P : Matches(r, Tr.ev[i + 1]) }
-           IN S' = N /\ rk' = IF N = {} THEN RejectKind(P, Tr.ev[i + 1]) ELSE ""
+        /\ S' = { r \in AllSucc : Matches(r, Tr.ev[i + 1]) }
+        /\ rk' = IF S' = {} THEN RejectKind(AllSucc, Tr.ev[i + 1]) ELSE ""
         /\ i' = i + 1 /\ UNCHANGED <<tid, fin>>
 Finish == /\ ~fin /\ i >= Len(Tr.ev) /\ S # {}
-          /\ LET N == IF Tr.exit \in {"returned", "raised"} /\ i >= 1 THEN { r \in AllSucc : r.ph = Tr.exit } ELSE S
-             IN S' = N /\ rk' = IF N = {} THEN "exit" ELSE ""
+          /\ S' = IF Tr.exit \in {"returned", "raised"} /\ i >= 1 THEN { r \in AllSucc : r.ph = Tr.exit } ELSE S
+          /\ rk' = IF S' = {} THEN "exit" ELSE ""
           /\ fin' = TRUE /\ UNCHANGED <<tid, i>>
 Next == First \/ Step \/ Finish
 Spec == Init /\ [][Next]_tvars
